@@ -258,8 +258,9 @@ CHECKS = {
         technique="model-based stateful property testing (rapid); differential probes on two nodes; child-process exit-status check",
         rule="non-trivial item = (probe, table level, accepted?) evaluated within +-2 of an enforcement height; halt cases are all non-trivial",
         assumptions=HIST_ASSUME,
-        jobs=[dict(test="TestC17", quick=T(6, 16, 60), thorough=T(12, 150, 80, 3000)),
-              dict(test="TestC17Halt", quick=T(2, 4), thorough=T(4, 30, 0, 3000))],
+        jobs=[dict(test="TestC17", quick=T(5, 16, 60), thorough=T(10, 150, 80, 3000)),
+              dict(test="TestC17Reorg", quick=T(2, 30), thorough=T(4, 400, 0, 3000)),
+              dict(test="TestC17Halt", quick=T(1, 6), thorough=T(2, 40, 0, 3000))],
     ),
     "C20": dict(
         level="exploration",
